@@ -54,7 +54,9 @@ class LambdaTokenTranslator(AbstractTranslator):
                 operator, operand = parsed_literal[0]
                 condition_symbol = {'<>': '!=', '=': '=='}.get(operator, operator)
 
-                if re.fullmatch(cls._NUMBER, operand):
+                if re.fullmatch(cls._NUMBER, operand.strip()):
+                    # blanks around a number are no part of it: "> 2" is > 2 (as a text it would be read as a date and fail)
+                    operand = operand.strip()
                     # the number the text denotes, written as python writes it: ">007" is > 7 (007 is no python number),
                     # "<-5" is < -5 (taken as a text it would be read as a date and fail against every number)
                     number = float(operand)
